@@ -59,14 +59,22 @@ LETCHARS = ["u", "v", "w"]
 # uea/ueb/uec: environments made by \newenvironment (empty begin and end part; both parts \relax; empty
 # begin part only).  \begin opens a group and \end closes it whatever the two parts contain.
 USER_ENVS = {"uea": ("", ""), "ueb": ("\\relax ", "\\relax "), "uec": ("", "\\relax ")}
+# esmall/ebf: the environment form of a font declaration (\begin{small} ... \end{small}); the declaration
+# form (\small inside a group, node kind "decl") changes nothing but the font.
+DECL_ENVS = {"esmall": "small", "ebf": "bfseries"}
+F_DECL_OWN_ENV = "declaration-directly-in-its-own-environment"      # \begin{small} ... \small ... \end{small}
+DECLS = ["small", "bfseries", "itshape"]
+DECL_HOSTS = ("brace", "begingroup", "center", "quote", "uea", "ueb", "uec", "esmall", "ebf",
+              "textbf", "mbox", "footnote")
 GROUP_KINDS = ["brace", "begingroup", "center", "quote", "itemize", "tabular", "dollar",
-               "paren", "bracket", "textbf", "mbox", "footnote", "uea", "ueb", "uec"]
+               "paren", "bracket", "textbf", "mbox", "footnote", "uea", "ueb", "uec", "esmall", "ebf"]
 ARG_KINDS = ("textbf", "mbox", "footnote")
 MAX_DEPTH = 6
 
 _ALLOWED_IN = {
     "par": set(GROUP_KINDS),
-    "lr": set(["brace", "begingroup", "dollar", "paren", "textbf", "mbox", "tabular", "uea", "ueb", "uec"]),
+    "lr": set(["brace", "begingroup", "dollar", "paren", "textbf", "mbox", "tabular", "uea", "ueb", "uec",
+               "esmall", "ebf"]),
     "math": set(["brace", "begingroup", "textbf", "mbox"]),
 }
 _CHILD_MODE = {"center": "par", "quote": "par", "itemize": "par", "tabular": "lr",
@@ -84,6 +92,9 @@ _CLOSE = {"brace": "}", "begingroup": "\\endgroup ", "center": "\\end{center}",
 for _k in USER_ENVS:
     _OPEN[_k] = "\\begin{%s}" % _k
     _CLOSE[_k] = "\\end{%s}" % _k
+for _k, _v in DECL_ENVS.items():
+    _OPEN[_k] = "\\begin{%s}" % _v
+    _CLOSE[_k] = "\\end{%s}" % _v
 
 # tags of the known deviations (bucket key = "text-mismatch:" + tag)
 T_GLOBAL = "global-prefix"
@@ -444,6 +455,17 @@ class SrcModel(object):
         self.src.append("%s\\%s{%s}" % (cmd, name, text))
         self._assign(name, Val(text, writer), glob, tag)
         self.features.add("assign:" + writer)
+        return True
+
+    def _n_decl(self, nd):
+        """a font declaration inside a group: no effect on meanings, codes or the stack"""
+        if not self.save or self.save[-1].kind not in DECL_HOSTS or self.mode == "math" or \
+                nd.get("d") not in DECLS:
+            return False
+        self.src.append("\\%s " % nd["d"])
+        self.features.add("decl:" + nd["d"])
+        if DECL_ENVS.get(self.save[-1].kind) == nd["d"]:
+            self.features.add(F_DECL_OWN_ENV)
         return True
 
     def _n_renew(self, nd):
